@@ -223,7 +223,14 @@ func deciderOf(v ssa.Value) string {
 }
 
 // paramFields collects "param.field" names the value depends on (through calls, loads, phis).
+var pfNest int
+
 func paramFields(fn *ssa.Function, v ssa.Value) []string {
+	pfNest++
+	defer func() { pfNest-- }()
+	if pfNest > 6 {
+		return nil // nested label computations (table[key] pairings inside container contents): cut the recursion
+	}
 	set := map[string]bool{}
 	seen := map[ssa.Value]bool{}
 	isParam := func(x ssa.Value) (string, bool) {
@@ -422,10 +429,16 @@ func paramFields(fn *ssa.Function, v ssa.Value) []string {
 			}
 			return
 		}
-		if in, ok := x.(ssa.Instruction); ok {
-			for _, op := range in.Operands(nil) {
-				if *op != nil {
-					rec(*op, d+1)
+		switch mk := x.(type) {
+		case *ssa.MakeSlice:
+			// the capacity hint of a fresh slice is not content (its length is: a buffer of n zero bytes depends on n)
+			rec(mk.Len, d+1)
+		default:
+			if in, ok := x.(ssa.Instruction); ok {
+				for _, op := range in.Operands(nil) {
+					if *op != nil {
+						rec(*op, d+1)
+					}
 				}
 			}
 		}
@@ -476,6 +489,7 @@ func paramFields(fn *ssa.Function, v ssa.Value) []string {
 	// drop bare params when a field of the same param is present
 	var res []string
 	for _, k := range out {
+
 		if !strings.Contains(k, ".") {
 			has := false
 			for _, k2 := range out {
@@ -579,6 +593,9 @@ func rejectGuards(fn *ssa.Function) []guard {
 			}
 			if len(fields) == 0 && strings.HasPrefix(dec, "phi ") && strings.HasSuffix(dec, " const") {
 				continue // a loop counter compared with a constant bound: not a decision about any input
+			}
+			if strings.HasPrefix(dec, "round.Helper.BroadcastMessage") || strings.HasPrefix(dec, "round.Helper.SendMessage") {
+				continue // the error of handing a message to the output channel: propagated, not a decision about an input
 			}
 			out = append(out, guard{fn: fn, iff: x, decider: dec, fields: fields, cond: x.Cond, pos: pos, passBlk: pass})
 		case *ssa.Return:
@@ -955,7 +972,9 @@ func liftFrom(fn *ssa.Function, call *ssa.Call, g *ssa.Function, onParam bool, c
 				}
 			}
 			for k := range set {
-				fields = append(fields, k)
+				if !contextLabel(k) {
+					fields = append(fields, k)
+				}
 			}
 			sort.Strings(fields)
 			lg := guard{fn: fn, iff: Giff, ret: Gret, decider: S.decider, fields: fields, cond: S.cond, pos: S.pos, passBlk: GpassBlk, inner: S.iff}
@@ -1200,7 +1219,7 @@ func replaceToken(s, tok, with string) string {
 // arguments (stable under changes inside the helper); only data that merely flows through a helper is expanded.
 var noExpandCall *ssa.Call
 
-func guardFields(fn *ssa.Function, cond ssa.Value) []string {
+func guardFieldsRaw(fn *ssa.Function, cond ssa.Value) []string {
 	prev := noExpandCall
 	noExpandCall = condCall(cond)
 	if noExpandCall != nil {
@@ -1434,4 +1453,30 @@ func sameValueVsConst(a, b ssa.Value) bool {
 		}
 	}
 	return sameErr(x.X, y.X) || (path(x.X) == path(y.X) && !strings.Contains(path(x.X), "local:"))
+}
+
+// contextLabel: labels that name the curve group of an object or of the session (recv.group, recv.Group(),
+// free:ConfigSender.Group(), body.Group ...). The group is fixed per session and handed around in many ways (field,
+// accessor, parameter); it never distinguishes two inputs.
+func contextLabel(l string) bool {
+	last := l
+	if i := strings.LastIndexByte(l, '.'); i >= 0 {
+		last = l[i+1:]
+	}
+	switch last {
+	case "group", "Group()", "Group", "Curve()", "curve":
+		return true
+	}
+	return false
+}
+
+// guardFields: the labels a guard is keyed on: what its condition depends on, minus session context (the curve group).
+func guardFields(fn *ssa.Function, cond ssa.Value) []string {
+	var out []string
+	for _, l := range guardFieldsRaw(fn, cond) {
+		if !contextLabel(l) {
+			out = append(out, l)
+		}
+	}
+	return out
 }
